@@ -509,4 +509,324 @@ theorem Pkl.abs_delp {K : Kind} {d : Dir} (h : Pkl.Inv K d) (p : Pid) (k : Key) 
   · cases hs : absPkl d k <;> simp [h1]
   · simp [h1]
 
+/-! ## The flat dictionary presentation of the specification -/
+
+def absFlat (f : Flat) : Spec := fun k => get? f k
+
+theorem Flat.abs_save (f : Flat) (p : Pid) (t : Tag) (v : Snap) : absFlat (Flat.save f p t v) = (absFlat f).save (p, t) v := by
+  funext k
+  simp only [absFlat, Flat.save, Spec.save, get?_set]
+  by_cases h : k = (p, t)
+  · subst h; simp
+  · have : ¬ (p, t) = k := fun e => h e.symm
+    simp [h, this]
+
+theorem Flat.load_eq (f : Flat) (p : Pid) (t : Tag) : Flat.load f p t = (absFlat f).load (p, t) := by
+  simp only [Flat.load, Spec.load, absFlat]
+
+theorem Flat.abs_del (f : Flat) (p : Pid) (t : Tag) : absFlat (Flat.deleteCheckpoint f p t) = (absFlat f).del (p, t) := by
+  funext k
+  simp only [absFlat, Flat.deleteCheckpoint, Spec.del, get?_del]
+  by_cases h : k = (p, t)
+  · subst h; simp
+  · have : ¬ (p, t) = k := fun e => h e.symm
+    simp [h, this]
+
+theorem Flat.abs_delp (f : Flat) (p : Pid) : absFlat (Flat.deleteProcessCheckpoints f p) = (absFlat f).delp p := by
+  funext k
+  simp only [absFlat, Flat.deleteProcessCheckpoints, Spec.delp]
+  induction f with
+  | nil => simp [get?]
+  | cons e r ih =>
+    obtain ⟨a, b⟩ := e
+    simp only [ne_eq, decide_not] at ih
+    by_cases h1 : a.1 = p
+    · by_cases h2 : a = k
+      · subst h2; simp [List.filter, h1, ih]
+      · simp [List.filter, h1, ih, get?, h2]
+    · by_cases h2 : a = k
+      · subst h2; simp [List.filter, h1, get?]
+      · simp [List.filter, h1, ih, get?, h2]
+
+theorem Flat.nodup_delp {f : Flat} (h : (keys f).Nodup) (p : Pid) : (keys (Flat.deleteProcessCheckpoints f p)).Nodup := by
+  simp only [Flat.deleteProcessCheckpoints, keys] at *
+  exact List.pairwise_map.2 (List.Pairwise.filter _ (List.pairwise_map.1 h))
+
+theorem Flat.lists {f : Flat} (h : (keys f).Nodup) : (absFlat f).Lists (Flat.getCheckpoints f) :=
+  ⟨h, fun k => mem_keys_iff f k⟩
+
+theorem Flat.listsP {f : Flat} (h : (keys f).Nodup) (p : Pid) : (absFlat f).ListsP p (Flat.getProcessCheckpoints f p) := by
+  refine ⟨List.Pairwise.filter _ h, fun k => ?_⟩
+  simp only [Flat.getProcessCheckpoints, List.mem_filter, decide_eq_true_eq, mem_keys_iff, absFlat]
+  exact ⟨fun ⟨a, b⟩ => ⟨b, a⟩, fun ⟨a, b⟩ => ⟨b, a⟩⟩
+
+/-! ## Refinement along a history -/
+
+/-- `I` refines the specification through the relation `R` for the operations satisfying `ok` -/
+structure Refines {σ : Type} (I : Impl σ) (ok : Op → Prop) (R : σ → Spec → Prop) : Prop where
+  init : R I.init Spec.empty
+  step : ∀ (c : Cur) (x : σ) (s : Spec) (op : Op), ok op → R x s → R (stepSt I c x op) (specStep c s op)
+  res : ∀ (x : σ) (s : Spec) (op : Op), ok op → R x s → ResOk s op (stepRes I x op)
+
+theorem Refines.run {σ : Type} {I : Impl σ} {ok : Op → Prop} {R : σ → Spec → Prop} (h : Refines I ok R)
+    (ops : List Op) (hok : ∀ op ∈ ops, ok op) (c : Cur) (x : σ) (s : Spec) (hR : R x s) :
+    R (runSt I c x ops) (specRun c s ops) ∧ Conforms c s ops (runRes I c x ops) := by
+  induction ops generalizing c x s with
+  | nil => exact ⟨hR, trivial⟩
+  | cons op ops ih =>
+    have h1 := hok op (by simp)
+    have := ih (fun o ho => hok o (List.mem_cons_of_mem _ ho)) (stepCur c op) _ _ (h.step c x s op h1 hR)
+    exact ⟨this.1, h.res x s op h1 hR, this.2⟩
+
+def RefM (m : InMem) (s : Spec) : Prop := Mem.Inv m ∧ absMem m = s
+
+theorem mem_refines : Refines memImpl (fun _ => True) RefM where
+  init := ⟨Mem.inv_init, by funext k; simp [absMem, memImpl, Spec.empty, get?]⟩
+  step := by
+    rintro c m s op - ⟨hi, rfl⟩
+    cases op with
+    | save p t => exact ⟨Mem.inv_save hi .., Mem.abs_save ..⟩
+    | del p t => exact ⟨Mem.inv_del hi .., Mem.abs_del ..⟩
+    | delp p => exact ⟨Mem.inv_delp hi .., Mem.abs_delp ..⟩
+    | _ => exact ⟨hi, rfl⟩
+  res := by
+    rintro m s op - ⟨hi, rfl⟩
+    cases op with
+    | load p t => exact Mem.load_eq ..
+    | list => exact Mem.lists hi
+    | listp p => exact Mem.listsP hi p
+    | _ => trivial
+
+def RefF (f : Flat) (s : Spec) : Prop := (keys f).Nodup ∧ absFlat f = s
+
+theorem flat_refines : Refines flatImpl (fun _ => True) RefF where
+  init := ⟨by simp [flatImpl, keys], by funext k; simp [absFlat, flatImpl, Spec.empty, get?]⟩
+  step := by
+    rintro c m s op - ⟨hi, rfl⟩
+    cases op with
+    | save p t => exact ⟨nodup_keys_set _ _ hi, Flat.abs_save ..⟩
+    | del p t => exact ⟨nodup_keys_del _ hi, Flat.abs_del ..⟩
+    | delp p => exact ⟨Flat.nodup_delp hi _, Flat.abs_delp ..⟩
+    | _ => exact ⟨hi, rfl⟩
+  res := by
+    rintro m s op - ⟨hi, rfl⟩
+    cases op with
+    | load p t => exact Flat.load_eq ..
+    | list => exact Flat.lists hi
+    | listp p => exact Flat.listsP hi p
+    | _ => trivial
+
+/-- the pickle directory represents `s`: on well-formed keys, and `s` stores nothing else -/
+structure RefP (K : Kind) (d : Dir) (s : Spec) : Prop where
+  inv : Pkl.Inv K d
+  abs : ∀ k, wfKey K k = true → absPkl d k = s k
+  dom : ∀ k, (s k).isSome = true → wfKey K k = true
+
+theorem pkl_refines (K : Kind) : Refines pklImpl (fun op => wfOp K op = true) (RefP K) where
+  init := ⟨Pkl.inv_init K, by intro k _; simp [absPkl, pklImpl, Spec.empty, get?], by simp [Spec.empty]⟩
+  step := by
+    intro c d s op hop h
+    cases op with
+    | save p t =>
+      have hk : wfKey K (p, t) = true := hop
+      refine ⟨Pkl.inv_save h.inv _ _ _ hk, fun k hk' => ?_, fun k hs => ?_⟩
+      · show absPkl (Pkl.save d p t (c p)) k = _
+        rw [Pkl.abs_save d p t _ hk k hk']
+        simp only [specStep, Spec.save, h.abs k hk']
+      · simp only [specStep, Spec.save] at hs
+        by_cases e : k = (p, t)
+        · rw [e]; exact hk
+        · simp only [e, if_false] at hs; exact h.dom k hs
+    | del p t =>
+      have hk : wfKey K (p, t) = true := hop
+      refine ⟨Pkl.inv_del h.inv _ _, fun k hk' => ?_, fun k hs => ?_⟩
+      · show absPkl (Pkl.deleteCheckpoint d p t) k = _
+        rw [Pkl.abs_del d p t hk k hk']
+        simp only [specStep, Spec.del, h.abs k hk']
+      · simp only [specStep, Spec.del] at hs
+        by_cases e : k = (p, t)
+        · simp [e] at hs
+        · simp only [e, if_false] at hs; exact h.dom k hs
+    | delp p =>
+      refine ⟨Pkl.inv_delp h.inv _, fun k hk' => ?_, fun k hs => ?_⟩
+      · show absPkl (Pkl.deleteProcessCheckpoints d p) k = _
+        rw [Pkl.abs_delp h.inv p k hk']
+        simp only [specStep, Spec.delp, h.abs k hk']
+      · simp only [specStep, Spec.delp] at hs
+        by_cases e : k.1 = p
+        · simp [e] at hs
+        · simp only [e, if_false] at hs; exact h.dom k hs
+    | _ => exact h
+  res := by
+    intro d s op hop h
+    cases op with
+    | load p t =>
+      have hk : wfKey K (p, t) = true := hop
+      show Pkl.load d p t = s.load (p, t)
+      rw [Pkl.load_eq]; simp only [Spec.load, h.abs _ hk]
+    | list =>
+      refine ⟨Pkl.nodup_list h.inv, fun k => ?_⟩
+      show k ∈ Pkl.getCheckpoints d ↔ _
+      rw [Pkl.mem_list h.inv]
+      constructor
+      · rintro ⟨hw, hs⟩; rwa [← h.abs k hw]
+      · intro hs; have hw := h.dom k hs; exact ⟨hw, by rwa [h.abs k hw]⟩
+    | listp p =>
+      refine ⟨List.Pairwise.filter _ (Pkl.nodup_list h.inv), fun k => ?_⟩
+      show k ∈ Pkl.getProcessCheckpoints d p ↔ _
+      rw [Pkl.mem_listp h.inv]
+      constructor
+      · rintro ⟨hp, hw, hs⟩; exact ⟨hp, by rwa [← h.abs k hw]⟩
+      · rintro ⟨hp, hs⟩; have hw := h.dom k hs; exact ⟨hp, hw, by rwa [h.abs k hw]⟩
+    | _ => trivial
+/-! ## Facts about the specification -/
+
+theorem Spec.Lists.perm {s : Spec} {l l' : List Key} (h : s.Lists l) (h' : s.Lists l') : l.Perm l' :=
+  (List.perm_ext_iff_of_nodup h.1 h'.1).2 (fun k => (h.2 k).trans (h'.2 k).symm)
+
+theorem Spec.ListsP.perm {s : Spec} {p : Pid} {l l' : List Key} (h : s.ListsP p l) (h' : s.ListsP p l') : l.Perm l' :=
+  (List.perm_ext_iff_of_nodup h.1 h'.1).2 (fun k => (h.2 k).trans (h'.2 k).symm)
+
+/-- the specification determines every observation, up to the order of listings -/
+theorem resOk_resEq {s : Spec} {op : Op} {r r' : Res} (h : ResOk s op r) (h' : ResOk s op r') : ResEq r r' := by
+  cases op <;> cases r <;> cases r' <;> simp only [ResOk, ResEq] at * <;> first | trivial | (exact h.trans h'.symm) | (exact h.perm h')
+
+theorem conforms_obsEq {c : Cur} {s : Spec} {ops : List Op} {rs rs' : List Res}
+    (h : Conforms c s ops rs) (h' : Conforms c s ops rs') : ObsEq rs rs' := by
+  induction ops generalizing c s rs rs' with
+  | nil => cases rs <;> cases rs' <;> simp_all [Conforms, ObsEq]
+  | cons op ops ih =>
+    cases rs with
+    | nil => simp [Conforms] at h
+    | cons r rs =>
+      cases rs' with
+      | nil => simp [Conforms] at h'
+      | cons r' rs' => exact ⟨resOk_resEq h.1 h'.1, ih h.2 h'.2⟩
+
+theorem specStep_frame {k : Key} {op : Op} (h : touches k op = false) (c : Cur) (s : Spec) : specStep c s op k = s k := by
+  cases op with
+  | save p t => have : ¬ k = (p, t) := fun e => by simp [touches, e] at h
+                simp [specStep, Spec.save, this]
+  | del p t => have : ¬ k = (p, t) := fun e => by simp [touches, e] at h
+               simp [specStep, Spec.del, this]
+  | delp p => have : ¬ k.1 = p := fun e => by simp [touches, e] at h
+              simp [specStep, Spec.delp, this]
+  | _ => rfl
+
+theorem specRun_frame {k : Key} (ops : List Op) (h : ∀ op ∈ ops, touches k op = false) (c : Cur) (s : Spec) :
+    specRun c s ops k = s k := by
+  induction ops generalizing c s with
+  | nil => rfl
+  | cons op ops ih =>
+    simp only [specRun]
+    rw [ih (fun o ho => h o (List.mem_cons_of_mem _ ho)), specStep_frame (h op (by simp))]
+
+theorem runCur_append (c : Cur) (a b : List Op) : runCur c (a ++ b) = runCur (runCur c a) b := by
+  induction a generalizing c with
+  | nil => rfl
+  | cons op a ih => simp [runCur, ih]
+
+theorem specRun_append (c : Cur) (s : Spec) (a b : List Op) :
+    specRun c s (a ++ b) = specRun (runCur c a) (specRun c s a) b := by
+  induction a generalizing c s with
+  | nil => rfl
+  | cons op a ih => simp [specRun, runCur, ih]
+
+theorem runSt_append {σ : Type} (I : Impl σ) (c : Cur) (x : σ) (a b : List Op) :
+    runSt I c x (a ++ b) = runSt I (runCur c a) (runSt I c x a) b := by
+  induction a generalizing c x with
+  | nil => rfl
+  | cons op a ih => simp [runSt, runCur, ih]
+
+/-- after `pre`, a save of `(p, t)` and operations that do not touch that key, the specification holds the value
+the process had when it was saved -/
+theorem specRun_saved (c : Cur) (s : Spec) (pre post : List Op) (p : Pid) (t : Tag)
+    (hpost : ∀ op ∈ post, touches (p, t) op = false) :
+    specRun c s (pre ++ .save p t :: post) (p, t) = some (runCur c pre p) := by
+  rw [specRun_append]
+  simp only [specRun]
+  rw [specRun_frame post hpost]
+  simp [specStep, Spec.save]
+
+theorem Spec.load_del (s : Spec) (k0 k : Key) : (s.del k0).load k = if k = k0 then .error .missing else s.load k := by
+  by_cases h : k = k0 <;> simp [Spec.load, Spec.del, h]
+
+theorem Spec.load_delp (s : Spec) (p : Pid) (k : Key) : (s.delp p).load k = if k.1 = p then .error .missing else s.load k := by
+  by_cases h : k.1 = p <;> simp [Spec.load, Spec.delp, h]
+
+theorem Spec.load_ok_iff (s : Spec) (k : Key) : (∃ v, s.load k = .ok v) ↔ (s k).isSome = true := by
+  cases h : s k <;> simp [Spec.load, h]
+
+/-! ## Consequences of a refinement, in terms of the persister's own interface -/
+section
+variable {σ : Type} {I : Impl σ} {ok : Op → Prop} {R : σ → Spec → Prop}
+
+theorem Refines.load_eq (h : Refines I ok R) {x : σ} {s : Spec} (hR : R x s) {p : Pid} {t : Tag} (hk : ok (.load p t)) :
+    I.load x p t = s.load (p, t) := h.res x s (.load p t) hk hR
+
+theorem Refines.list_exact (h : Refines I ok R) {x : σ} {s : Spec} (hR : R x s) (hl : ok .list)
+    (hload : ∀ k : Key, k ∈ I.list x → ok (.load k.1 k.2)) :
+    (I.list x).Nodup ∧ (∀ k : Key, k ∈ I.list x → ∃ v, I.load x k.1 k.2 = .ok v) ∧
+      (∀ k : Key, ok (.load k.1 k.2) → (∃ v, I.load x k.1 k.2 = .ok v) → k ∈ I.list x) := by
+  have hL : s.Lists (I.list x) := h.res x s .list hl hR
+  refine ⟨hL.1, fun k hk => ?_, fun k hok hv => ?_⟩
+  · rw [h.load_eq hR (hload k hk)]; exact (Spec.load_ok_iff s k).2 ((hL.2 k).1 hk)
+  · rw [h.load_eq hR hok] at hv; exact (hL.2 k).2 ((Spec.load_ok_iff s k).1 hv)
+
+theorem Refines.delete_local (h : Refines I ok R) {x : σ} {s : Spec} (hR : R x s) (c : Cur) {p : Pid} {t : Tag}
+    (hd : ok (.del p t)) (hl : ok .list) :
+    (∀ k : Key, ok (.load k.1 k.2) →
+      I.load (I.del x p t) k.1 k.2 = if k = (p, t) then .error .missing else I.load x k.1 k.2) ∧
+    (∀ k : Key, k ∈ I.list (I.del x p t) ↔ (k ≠ (p, t) ∧ k ∈ I.list x)) := by
+  have hR' : R (I.del x p t) (s.del (p, t)) := h.step c x s (.del p t) hd hR
+  refine ⟨fun k hk => ?_, fun k => ?_⟩
+  · rw [h.load_eq hR' hk, h.load_eq hR hk, Spec.load_del]
+  · have h1 : (s.del (p, t)).Lists (I.list (I.del x p t)) := h.res _ _ .list hl hR'
+    have h2 : s.Lists (I.list x) := h.res _ _ .list hl hR
+    rw [h1.2 k, h2.2 k]
+    by_cases e : k = (p, t) <;> simp [Spec.del, e]
+
+theorem Refines.delete_process_exact (h : Refines I ok R) {x : σ} {s : Spec} (hR : R x s) (c : Cur) {p : Pid}
+    (hd : ok (.delp p)) (hl : ok .list) :
+    (∀ k : Key, ok (.load k.1 k.2) →
+      I.load (I.delp x p) k.1 k.2 = if k.1 = p then .error .missing else I.load x k.1 k.2) ∧
+    (∀ k : Key, k ∈ I.list (I.delp x p) ↔ (k.1 ≠ p ∧ k ∈ I.list x)) := by
+  have hR' : R (I.delp x p) (s.delp p) := h.step c x s (.delp p) hd hR
+  refine ⟨fun k hk => ?_, fun k => ?_⟩
+  · rw [h.load_eq hR' hk, h.load_eq hR hk, Spec.load_delp]
+  · have h1 : (s.delp p).Lists (I.list (I.delp x p)) := h.res _ _ .list hl hR'
+    have h2 : s.Lists (I.list x) := h.res _ _ .list hl hR
+    rw [h1.2 k, h2.2 k]
+    by_cases e : k.1 = p <;> simp [Spec.delp, e]
+end
+
+theorem AList.del_eq_self {κ ν : Type} [DecidableEq κ] {l : List (κ × ν)} {k : κ} (h : get? l k = none) : del l k = l := by
+  induction l with
+  | nil => rfl
+  | cons e r ih =>
+    obtain ⟨a, b⟩ := e
+    by_cases h2 : a = k
+    · simp [get?, h2] at h
+    · simp only [get?, h2, if_false] at h
+      simp [del, h2, ih h]
+
+theorem Mem.del_idem (m : InMem) (p : Pid) (t : Tag) :
+    Mem.deleteCheckpoint (Mem.deleteCheckpoint m p t) p t = Mem.deleteCheckpoint m p t := by
+  cases hm : get? m p with
+  | none => simp [Mem.deleteCheckpoint, hm]
+  | some inner =>
+    cases hi : get? inner t with
+    | none => simp [Mem.deleteCheckpoint, hm, hi]
+    | some v =>
+      have h1 : Mem.deleteCheckpoint m p t = AList.set m p (del inner t) := by simp [Mem.deleteCheckpoint, hm, hi]
+      rw [h1]
+      simp [Mem.deleteCheckpoint, get?_set, get?_del]
+
+theorem Pkl.del_idem (d : Dir) (p : Pid) (t : Tag) :
+    Pkl.deleteCheckpoint (Pkl.deleteCheckpoint d p t) p t = Pkl.deleteCheckpoint d p t := by
+  simp only [Pkl.deleteCheckpoint]
+  exact AList.del_eq_self (by simp [get?_del])
+
+theorem wfHist_mem {K : Kind} {ops : List Op} (h : wfHist K ops = true) : ∀ op ∈ ops, wfOp K op = true := by
+  simpa [wfHist] using h
 end Persister
